@@ -24,11 +24,15 @@ def fld4 : Fld := ⟨4, GF.mul4, fun a => pow GF.mul4 a 14, GF.xpow4⟩
 /-- evaluation point of encoding symbol `i` -/
 def pt (F : Fld) (i : Nat) : Nat := if i = 0 then 0 else F.xpow (i - 1)
 
-/-- Lagrange basis polynomial of node `i` among `nodes`, evaluated at `x`:
-    Π_{l ∈ nodes, l ≠ i} (x − pt l) / (pt i − pt l)   (characteristic 2: − is xor) -/
-def basisAt (F : Fld) (nodes : List Nat) (i : Nat) (x : Nat) : Nat :=
-  nodes.foldl (fun acc l => if l = i then acc else
-    F.mul acc (F.mul (x ^^^ pt F l) (F.inv (pt F i ^^^ pt F l)))) 1
+/-- product of a list of field elements -/
+def prodL (mul : Nat → Nat → Nat) (l : List Nat) : Nat := l.foldr mul 1
+
+/-- the factors (x − pt l) / (pt i − pt l), l ∈ nodes, l ≠ i   (characteristic 2: − is xor) -/
+def terms (F : Fld) (nodes : List Nat) (i : Nat) (x : Nat) : List Nat :=
+  (nodes.filter (fun l => l != i)).map fun l => F.mul (x ^^^ pt F l) (F.inv (pt F i ^^^ pt F l))
+
+/-- Lagrange basis polynomial of node `i` among `nodes`, evaluated at `x` -/
+def basisAt (F : Fld) (nodes : List Nat) (i : Nat) (x : Nat) : Nat := prodL F.mul (terms F nodes i x)
 
 /-- entry (r, i) of the systematic generator: coefficient of source symbol i in encoding symbol r -/
 def G (F : Fld) (k r i : Nat) : Nat := basisAt F (List.range k) i (pt F r)
